@@ -4,7 +4,7 @@ from .histcommon import *
 ID = 'C05'
 LEVEL = 'model_checking'
 BUDGET = {'quick': 290, 'thorough': 3300}
-BOUNDS = {'quick': 'all histories of depth 2 over a 56-operation alphabet from 6 start states (fresh, declared, populated, loaded from a file that starts at frame 10, loaded with fewer labels than points, loaded with an empty ANALOG group), views checked after every successful call; frame payloads symbolic; rates from {0,50,100}/{0,100,200,300}; plus a kernel with FREE rates: POINT:RATE 100 (thorough: any float in [1,2000]), ANALOG:RATE set twice to any float in [0,20000] with 1..3 declared channels, header analog view vs ANALOG:USED decided by z3 (FP theory for the ratio)',
+BOUNDS = {'quick': 'all histories of depth 2 over a 56-operation alphabet from 7 start states (6 in the quick tier) (fresh, declared, populated, loaded from a file that starts at frame 10, loaded with fewer labels than points, loaded with an empty ANALOG group, loaded with ANALOG:SCALE padded and ANALOG:UNITS unfilled), views checked after every successful call; frame payloads symbolic; rates from {0,50,100}/{0,100,200,300}; plus a kernel with FREE rates: POINT:RATE 100 (thorough: any float in [1,2000]), ANALOG:RATE set twice to any float in [0,20000] with 1..3 declared channels, header analog view vs ANALOG:USED decided by z3 (FP theory for the ratio)',
           'thorough': 'all histories of depth 3 (6 x 56^3 = 630k histories; capped by the wall budget, the cut is reported)'}
 OUTSIDE = 'histories deeper than the bound; frames whose sub-frame count deviates from the header (undocumented deviation, outside the property\'s quantifier); rates other than the enumerated ones'
 ASSUMPTIONS = ['a frame is "filled" when it holds at least one point or one sub-frame (gap frames created by an indexed store beyond the end are not)']
@@ -72,9 +72,17 @@ cstr = obsmodel.cstr
 def per_step(k, before, call, after, st, sec):
     if call['call.outcome'] != 0: return []          # refused calls are C10's subject
     O = views(obsmodel.parse_dump(after), 'views', 'after %s' % OP_NAMES.get(call['call.op']))
-    if sec.get('', None) is not None and st is not None and st.cfg.get('start') == 4:
-        # the start file has fewer labels than points on purpose: the 'one entry per point' clause is about declarations by name
-        O = [o for o in O if '/lists/' not in o.locus]
+    if st is not None and st.cfg.get('start') in (4, 6):
+        # the start file has fewer labels than points (4) / ANALOG lists shorter and longer than ANALOG:USED (6) on purpose.  The 'one entry per
+        # point/channel' clause is about declarations by name: it applies to the POINT lists from the first successful point declaration or
+        # point column on (the library then rewrites / completes them), and to the ANALOG lists from the first channel declaration or column on
+        prior = [c for (_, c, _) in steps_of(sec)[:k + 1]]
+        pdecl = any(c.get('call.kind') in (1, 6) and c['call.outcome'] == 0 for c in prior)
+        adecl = any(c.get('call.kind') in (2, 7) and c['call.outcome'] == 0 for c in prior)
+        O = [o for o in O if not (('/lists/POINT' in o.locus or '/lists/label-order' in o.locus) and not pdecl) and not (('/lists/ANALOG' in o.locus or '/lists/channel-label-order' in o.locus) and not adecl)]
+        # start 4: the names of the points WITHOUT a label are free in every frame (the contract only asks for the labelled ones), so frames may
+        # disagree on them and "in data order" has no single meaning for those positions: the order clause is not judged from that start state
+        if st.cfg.get('start') == 4: O = [o for o in O if '/lists/label-order' not in o.locus]
     return O
 
 def jobs(tier, seed):
